@@ -11,7 +11,7 @@ def established_13(c):
 
 
 def run(chk):
-    proved = chk.prove()
+    proved = chk.prove(extra_targets=["theories/Hs/Abs12Run.vo"])
     out = vlib.out_path("c02")
     rc, o = vlib.go_test(".", "^TestVerifC02$", {"VERIF_SEED": chk.seed, "VERIF_TIER": chk.tier, "VERIF_OUT": out},
                          tags=["c02"], timeout=3000)
